@@ -1,12 +1,12 @@
 """C10 - results independent of evaluation order/history; returned values and inputs not mutated."""
 from .common import Decision, run_units
-from .series_props import specs_evals, specs_wiring, specs_product, specs_index, fold_canaries
+from .series_props import specs_evals, specs_wiring, specs_product, specs_index, specs_solver, fold_canaries
 from .format_props import specs_keys
 
 
 def check(tier, seed):
     d = Decision("C10", tier, seed)
-    specs = specs_index(tier) + specs_product(tier) + specs_evals(tier) + specs_wiring(tier) + [("contracts.frame", "unit_frame", {})] + specs_keys(tier)
+    specs = specs_index(tier) + specs_product(tier) + specs_evals(tier) + specs_wiring(tier) + [("contracts.frame", "unit_frame", {})] + specs_keys(tier) + specs_solver(tier)
     d.add_units(fold_canaries(run_units(specs)))
     d.assumptions += [
         "user callbacks (Hamiltonian evaluation, custom solve_sylvester, element multiplication) are deterministic and do not mutate their arguments (as in the statement of C10)",
@@ -17,8 +17,10 @@ def check(tier, seed):
                      "of the inputs only (evaluators, products and wrappers are proved to denote their equations; deletions are proved never to "
                      "remove start data or an in-flight entry).  No-mutation = frame obligations: one per store site of every function under "
                      "contract (pyvc/effects.py), plus aliasing obligations on in-place updates inside the symbolic execution, plus the input-not-mutated "
-                     "postconditions of the format converters (_list_to_dict, _dict_to_BlockSeries works on a copy, _symbolic_keys_to_tuples).")
+                     "postconditions of the format converters (_list_to_dict, _dict_to_BlockSeries works on a copy, _symbolic_keys_to_tuples).  The default solver carries the "
+                     "only other state that survives a request (its memo of validated block pairs): its contract says that a pair is accepted iff the two blocks "
+                     "share no energy, whatever the right-hand side, and that a refusal records nothing - so the memo cannot change a later outcome.")
     d.run_battery("bd_battery.py", ["inputs_untouched"], "list / dict (tuple and monomial keys) / BlockSeries inputs with dense, diagonal-dense, csr, coo, dia values: entries of the caller's "
                   "containers are the same objects with the same contents after defining and evaluating the result to order 3")
-    d.run_battery("series_battery.py", ['history', 'fault', 'index'], "shapes <= (2,3), <= 2 infinite dimensions, orders <= 3, fixed list of index entries, 4x4 two-block problems; see replay/series_battery.py")
-    return d.finish(level="proof", trusted_base=["contracts/series_index.py", "contracts/series_product.py", "contracts/algorithm_evals.py", "contracts/frame.py", "pyvc/effects.py"])
+    d.run_battery("series_battery.py", ['history', 'history_illposed', 'fault', 'index'], "shapes <= (2,3), <= 2 infinite dimensions, orders <= 3, fixed list of index entries, 4x4 two-block problems; see replay/series_battery.py")
+    return d.finish(level="proof", trusted_base=["contracts/series_index.py", "contracts/series_product.py", "contracts/algorithm_evals.py", "contracts/frame.py", "contracts/sylvester.py", "pyvc/effects.py"])
